@@ -524,10 +524,15 @@ def run(ctx):
                         ctx.sample(dict(case='binop', cls=c, op=op, m=m, n=n), limit=8)
             # objects holding many values (a batch path, a chunk size, a preallocated buffer would show here), with repeated
             # values among them (drawn from a pool of three: coincidences of equal elements)
-            for m, n in ((16, 16), (17, 1), (1, 33), (64, 64), (16, 17), (8, 8), (100, 1)):
+            huge_ = int([2000, 2048, 2500][rng.integers(3)])
+            for m, n in ((16, 16), (17, 1), (1, 33), (64, 64), (16, 17), (8, 8), (100, 1), (128, 128), (128, 129), (256, 300), (129, 128), (257, 1), (1, 256),
+                         (huge_, huge_), (1, huge_), (huge_, 1), (huge_, huge_ + 1)):
                 i += 1
                 if not ctx.mine(i):
                     continue
+                if m >= 2000 or n >= 2000:
+                    if op not in (('mul', 'truediv', 'eq') if ctx.tier == 'quick' else ('mul', 'truediv', 'eq', 'add', 'sub', 'ne')):
+                        continue          # (trajectory-sized objects: the main operators)
                 pool_ = elements(rng, c, 3)
                 A = [pool_[int(k_)].copy() for k_ in rng.integers(3, size=m)]
                 B = [pool_[int(k_)].copy() for k_ in rng.integers(3, size=n)]
@@ -567,6 +572,13 @@ def run(ctx):
                 for _ in range(reps):
                     drive(RUNNERS, ctx, 'twexp', dict(cls=c, A=elements(rng, c, m), thetas=[float(x) for x in rng.uniform(-3, 3, size=n)],
                                                       scalar=bool(rng.integers(2)), form=['array', 'list'][rng.integers(2)]))
+                    for _nd in range(0 if m == 1 else (3 if n == 1 else 1)):
+                        # values that differ only in the 9th decimal (they print alike; they are different twists), and exact repeats
+                        A_ = elements(rng, c, m)
+                        for j_ in range(1, m):
+                            if rng.random() < 0.7:
+                                A_[j_] = A_[0] + 1e-9 * rng.uniform(-1, 1, size=A_[0].shape) * (A_[0] != 0) if rng.random() < 0.8 else A_[0].copy()
+                        drive(RUNNERS, ctx, 'twexp', dict(cls=c, A=A_, thetas=[float(x) for x in rng.uniform(-3, 3, size=n)], scalar=True, form='array'))
                     drive(RUNNERS, ctx, 'twexp', dict(cls=c, A=elements(rng, c, m), thetas=[float(x) for x in rng.uniform(-170, 170, size=n)], units='deg',
                                                       scalar=bool(rng.integers(2)), form=['array', 'list', 'tuple'][rng.integers(3)]))
     acc = ACC()
